@@ -83,6 +83,31 @@ pub fn cheap_per_tick(kind: Kind) -> bool {
     matches!(kind, Kind::Ema | Kind::Sma | Kind::Wma | Kind::Sd | Kind::Rsi | Kind::Tr | Kind::Atr | Kind::Macd | Kind::Ppo | Kind::Bb | Kind::Kc | Kind::Roc | Kind::Mfi | Kind::Obv)
 }
 
+/// The EMA family keeps no window, so astronomically large periods are valid and cheap: a fixed list
+/// around 2^31, 2^32, 2^51..2^53 (where f64 stops representing every integer) and 2^62.
+pub const HUGE_PERIODS: [usize; 9] = [(1 << 31) - 1, 1 << 31, (1 << 32) + 1, (1 << 51) + 1, (1 << 52) + 3, (1 << 53) + 1, (1 << 53) + 1025, (1 << 53) - 1, 1 << 62];
+
+pub fn huge_specs() -> Vec<NodeSpec> {
+    let mut v = vec![];
+    for k in [Kind::Ema, Kind::Rsi, Kind::Atr, Kind::Macd, Kind::Ppo, Kind::Kc] {
+        for (j, &p) in HUGE_PERIODS.iter().enumerate() {
+            let mode = if j % 2 == 0 { Mode::Scalar } else { Mode::Bar };
+            v.push(NodeSpec { kind: k, params: Params::new(p, 12, 9, 2.0), mode, dflt: false });
+            if k.n_periods() == 3 {
+                v.push(NodeSpec { kind: k, params: Params::new(12, p, 9, 2.0), mode, dflt: false });
+                v.push(NodeSpec { kind: k, params: Params::new(12, 26, p, 2.0), mode, dflt: false });
+            }
+        }
+    }
+    v
+}
+
+/// a dozen ordinary bars for the fixed corpora
+pub fn plain_tick(j: usize) -> crate::sut::Input {
+    let c = 50.0 + ((j * 7) % 11) as f64 * 0.37 - (j % 3) as f64 * 0.11;
+    crate::sut::Input { o: c - 0.2, h: c + 0.9, l: c - 1.1, c, v: 100.0 + j as f64 }
+}
+
 pub fn random_spec(rng: &mut Rng, tier: Tier, among: Option<&[Kind]>) -> NodeSpec {
     let kind = *rng.pick(among.unwrap_or(&ALL_KINDS));
     let mut params = Params::new(random_period(rng, tier), random_period(rng, tier), random_period(rng, tier), random_mult(rng));
